@@ -220,9 +220,9 @@ def attenuation (e : Easing α) (minD maxD distance : α) : α :=
   asAmplitude (lerp32 (silenceDb : α) (0.0 : α) relVol)
 
 /-- `EAR_DISTANCE` (sub.rs::listener_ear_positions) -/
-def earDistance : α := lit32 (0.1 : α)
+def earDistance : α := gen_body% Gen.earDistance
 /-- `EAR_ANGLE_FROM_HEAD = FRAC_PI_8` (sub.rs::listener_ear_directions) -/
-def earAngle : α := KOps.r32 (pi32 / (8.0 : α))
+def earAngle : α := gen_body% Gen.earAngleFromHead
 
 /-- mirrors: sub.rs::listener_ear_positions -/
 def earPositions (lp : Vec3 α) (lo : Quat α) : Vec3 α × Vec3 α :=
